@@ -1,8 +1,9 @@
 """C17 adapters: the short-Weierstrass arithmetic, key validation and ECDH of the bundled python-ecdsa"""
+import traceback
 import os
 import subprocess
 import tempfile
-from impl import op, err
+from impl import op, err, REPO
 from register_crypto_plugin.ecdsa import ellipticcurve, curves, ecdh, keys, errors, numbertheory
 from register_crypto_plugin.ecdsa.ellipticcurve import CurveFp, PointJacobi, Point, INFINITY
 import refec
@@ -221,6 +222,47 @@ def prop_c17add(d, p, q):
     res2 = ec_add(d, q, p)
     if not res2.startswith("ok") or not same(c, got_affine(res2), want):
         return f"FAIL Q+P = {res2} differs from P+Q = {want}"
+    return "ok"
+
+
+@op("prop.c17affine")
+def prop_c17affine(d, p, q, k):
+    """the affine Point class on points given by ANY integer representatives of their coordinates (the class itself builds
+    (x, -y) in __mul__ and keeps whatever the caller passes): P + Q, Q + P, 2P, -P and k*P against the independent group law"""
+    c = refcurve(d)
+    fp = domain(d)[0]
+    pp = c["p"]
+    n = c["n"]
+
+    def val(t):
+        return None if t == "inf" else tuple(pint(v) % pp for v in t.split(","))
+
+    def obj(t, order=None):
+        return parse_apt(fp, t, order)
+
+    def aff(P):
+        return None if P == INFINITY else (int(P.x()) % pp, int(P.y()) % pp)
+
+    P, Q = val(p), val(q)
+    try:
+        for what, got, want in (("P + Q", lambda: obj(p) + obj(q), refec.add(c, P, Q)),
+                                ("Q + P", lambda: obj(q) + obj(p), refec.add(c, P, Q)),
+                                ("P + Q (with order)", lambda: obj(p, n) + obj(q, n), refec.add(c, P, Q)),
+                                ("2P", lambda: obj(p).double() if P else INFINITY, refec.add(c, P, P)),
+                                ("-P", lambda: -obj(p) if P else INFINITY, None if P is None else (P[0], -P[1] % pp)),
+                                ("(P + Q) + (-Q)", lambda: (obj(p) + obj(q)) + (-obj(q) if Q else INFINITY), P),
+                                (f"{pint(k)} * P", lambda: obj(p) * pint(k) if P else INFINITY, refec.mul(c, pint(k) % n, P) if P else None),
+                                (f"{pint(k)} * P (with order)", lambda: obj(p, n) * pint(k) if P else INFINITY,
+                                 refec.mul(c, pint(k) % n, P) if P else None)):
+            if pint(k) < 0 and "* P" in what:
+                continue
+            g = aff(got())
+            if g != want:
+                return f"FAIL affine {what} = {g} but the group law gives {want}"
+    except Exception as e:
+        if os.path.abspath(traceback.extract_tb(e.__traceback__)[-1].filename).startswith(os.path.abspath(REPO)):
+            return f"FAIL affine arithmetic on points of the curve raises {type(e).__name__}: {e}"
+        raise
     return "ok"
 
 
